@@ -24,6 +24,7 @@ COQ_LOGICAL = '-R /verif/coq AwkV -R . AwkMerge'
 CORPUS = os.path.join(C.VERIF, 'corpus', 'C08')
 B = os.path.join(C.BUILD, 'c08')
 
+PY_HALF = True     # harness/pyhalves.py: the Python-layer functions of this property under pyshim
 RULE = ('2-4 value-first random layouts per case (same type re-encoded / leaf dtypes varied over all 121 ordered pairs / bool with '
         'numbers x mergebool / option with non-option / records with permuted equal names / Regular sizes equal+unequal / '
         'EmptyArray operands / genuinely different types / union operands) through concat (transcribed ak.concatenate axis=0), '
